@@ -17,3 +17,9 @@ Proof. exact one_load_result_per_file. Qed.
 Theorem C10_each_unit_converted_once : forall podman ex kf mn l tbl,
   map fst (convert_all podman ex kf mn (sort_units l) tbl) = map l_path (sort_units l) /\ Permutation l (sort_units l).
 Proof. intros. split; [apply convert_all_paths|apply sort_units_perm]. Qed.
+
+(* a file that does not load takes no part in the run: all conversion results are what they are without it *)
+Theorem C10_unloadable_files_change_nothing : forall podman ex kf mn files1 files2 p t,
+  (forall u i, load_one p t <> LOk u i) ->
+  snd (process_files podman ex kf mn (files1 ++ (p, t) :: files2)) = snd (process_files podman ex kf mn (files1 ++ files2)).
+Proof. exact unloadable_file_changes_nothing. Qed.
